@@ -18,22 +18,22 @@ Open Scope N_scope.
    last acknowledged report (acknowledged = the send succeeded), nothing for a session not (yet) announced;
    restart keeps open accounting exactly when a checkpoint was written (Start or acknowledged Interim). *)
 Theorem C09_bracket :
-  forall evs, lrun_wraps repaired sst0 evs = false ->
-  accepted (snd (lrun repaired sst0 evs)) = true.
+  forall g evs, lrun_wraps repaired g sst0 evs = false ->
+  accepted (snd (lrun repaired g sst0 evs)) = true.
 Proof. exact conforms. Qed.
 Print Assumptions C09_bracket.
 
 (* at most one Start per bracket, however often Active / Restored are repeated and across restarts *)
 Theorem C09_start_once :
-  forall evs, lrun_wraps repaired sst0 evs = false -> no_prune evs = true ->
-  bracketed false (outputs (snd (lrun repaired sst0 evs))) = true.
+  forall g evs, lrun_wraps repaired g sst0 evs = false -> no_prune evs = true ->
+  bracketed false (outputs (snd (lrun repaired g sst0 evs))) = true.
 Proof. exact start_once. Qed.
 Print Assumptions C09_start_once.
 
 (* Stops only answer Released, at most one each, and never two without a new announcement in between *)
 Theorem C09_stop_once :
-  forall evs, lrun_wraps repaired sst0 evs = false ->
-  stops_ok false (snd (lrun repaired sst0 evs)) = true.
+  forall g evs, lrun_wraps repaired g sst0 evs = false ->
+  stops_ok false (snd (lrun repaired g sst0 evs)) = true.
 Proof. exact stop_once. Qed.
 Print Assumptions C09_stop_once.
 
@@ -41,94 +41,111 @@ Print Assumptions C09_stop_once.
    acknowledged Interim of the bracket — for every sequence of readings (resets to any smaller value, missing
    readings, unavailable snapshots, renumbered interfaces) and every pattern of send failures and restarts *)
 Theorem C09_monotone :
-  forall evs, lrun_wraps repaired sst0 evs = false -> no_prune evs = true ->
-  nondecreasing c4z (outputs (snd (lrun repaired sst0 evs))) = true.
+  forall g evs, lrun_wraps repaired g sst0 evs = false -> no_prune evs = true ->
+  nondecreasing c4z (outputs (snd (lrun repaired g sst0 evs))) = true.
 Proof. exact monotone. Qed.
 Print Assumptions C09_monotone.
 
 (* "provided the true total stays < 2^64", stated on the inputs only: if per counter the sum of all readings
    appearing in the history is below 2^64, nothing wraps, hence the counters never go backwards *)
 Theorem C09_no_wrap_if_total_small :
-  forall evs, c4_lt_W (total_readings evs) -> lrun_wraps repaired sst0 evs = false.
+  forall evs, c4_lt_W (total_readings evs) -> lrun_wraps repaired false sst0 evs = false.
 Proof. exact no_wrap_if_total_small. Qed.
 Print Assumptions C09_no_wrap_if_total_small.
 
 Theorem C09_monotone_total :
   forall evs, c4_lt_W (total_readings evs) -> no_prune evs = true ->
-  nondecreasing c4z (outputs (snd (lrun repaired sst0 evs))) = true.
+  nondecreasing c4z (outputs (snd (lrun repaired false sst0 evs))) = true.
 Proof. exact monotone_total. Qed.
 Print Assumptions C09_monotone_total.
 
 (* one report, any session state: the cumulative returned is never below the last reported values *)
 Theorem C09_report_not_below_last :
-  forall e sn, report_wraps repaired e sn = false -> c4_le (last e) (snd (report repaired e sn)).
+  forall g tick e sn, report_wraps repaired g tick e sn = false -> c4_le (last e) (snd (report repaired g tick e sn)).
 Proof. exact report_ge. Qed.
 Print Assumptions C09_report_not_below_last.
 
 (* repeated notifications are silent, from ANY component state s *)
 Theorem C09_repeated_announce_silent :
-  forall s ev i j, (ev = EActive i \/ ev = ERestored i) ->
-  let s' := fst (lstep repaired s ev) in
-  snd (lstep repaired s' (EActive j)) = [] /\ snd (lstep repaired s' (ERestored j)) = [].
+  forall g s ev i h j k, (ev = EActive i h \/ ev = ERestored i h) ->
+  let s' := fst (lstep repaired g s ev) in
+  snd (lstep repaired g s' (EActive j k)) = [] /\ snd (lstep repaired g s' (ERestored j k)) = [].
 Proof. exact after_announce_silent. Qed.
 Print Assumptions C09_repeated_announce_silent.
 
 Theorem C09_repeated_release_silent :
-  forall s sn sn',
-  let s' := fst (lstep repaired s (EReleased sn)) in
-  s' = sst0 /\ snd (lstep repaired s' (EReleased sn')) = [].
+  forall g s sn sn',
+  let s' := fst (lstep repaired g s (EReleased sn)) in
+  s' = sst0 /\ snd (lstep repaired g s' (EReleased sn')) = [].
 Proof. exact after_release_silent. Qed.
 Print Assumptions C09_repeated_release_silent.
 
 (* restoring never emits a Start — every variant, every state *)
 Theorem C09_restore_never_starts :
-  forall v s i, snd (lstep v s (ERestored i)) = [].
+  forall v g s i h, snd (lstep v g s (ERestored i h)) = [].
 Proof. exact restore_never_starts. Qed.
 Print Assumptions C09_restore_never_starts.
 
 (* the component is the product of the per-session machines: after any component-level history the state
    of session j is the per-session run over the notifications addressed to j *)
 Theorem C09_component_is_product :
-  forall v bk evs g j s, nth_error g j = Some s ->
-  nth_error (grun v bk g evs) j = Some (fst (lrun v s (local_events bk j evs))).
+  forall v bk tys evs g j s, nth_error g j = Some s ->
+  nth_error (grun v bk tys g evs) j = Some (fst (lrun v (is_l2gw tys j) s (local_events bk j evs))).
 Proof. exact component_is_product. Qed.
 Print Assumptions C09_component_is_product.
 
 (* ---------------- non-vacuity ---------------- *)
-Definition rd (i a : N) : snap := Some [(i, C4 a (a / 2) (a / 100) (a / 200))].
+Definition rd (i a : N) : snaps := Snaps (Some [(i, C4 a (a / 2) (a / 100) (a / 200))]) None.
+(* l2gw segment: entry i carries (a bytes, a/100 packets); interface table: index i carries 7 *)
+Definition rdg (i a : N) : snaps := Snaps (Some [(i, C4 7 7 7 7)]) (Some [(i, (a, a / 100))]).
 (* Start; 400; 1000; counter reset to 5; failed send; restart + renumbering; missing reading; release *)
 Definition ex_hist : list sev :=
-  [EActive 5; EActive 5; ETick (rd 5 400) true; ETick (rd 5 1000) true; ETick (rd 5 5) true;
-   ETick (rd 5 20) false; ERestart; EPrune false; ERestored 6; ETick (rd 5 7) true; ETick (rd 6 3) true;
+  [EActive 5 0; EActive 5 0; ETick (rd 5 400) true; ETick (rd 5 1000) true; ETick (rd 5 5) true;
+   ETick (rd 5 20) false; ERestart; EPrune false; ERestored 6 0; ETick (rd 5 7) true; ETick (rd 6 3) true;
    EReleased (rd 6 9); EReleased (rd 6 9)].
 Example C09_nonvacuous :
-  lrun_wraps repaired sst0 ex_hist = false /\ no_prune ex_hist = true /\
+  lrun_wraps repaired false sst0 ex_hist = false /\ no_prune ex_hist = true /\
   c4_leb (total_readings ex_hist) (C4 (W - 1) (W - 1) (W - 1) (W - 1)) = true /\
   map rxb (flat_map (fun o => match o with Interim c _ => [c] | Stop c => [c] | Start => [] end)
-                    (outputs (snd (lrun repaired sst0 ex_hist)))) = [400; 1000; 1005; 1020; 1005; 1008; 1014] /\
+                    (outputs (snd (lrun repaired false sst0 ex_hist)))) = [400; 1000; 1005; 1020; 1005; 1008; 1014] /\
   length (filter (fun o => match o with Start => true | _ => false end)
-                 (outputs (snd (lrun repaired sst0 ex_hist)))) = 1%nat /\
+                 (outputs (snd (lrun repaired false sst0 ex_hist)))) = 1%nat /\
   length (filter (fun o => match o with Stop _ => true | _ => false end)
-                 (outputs (snd (lrun repaired sst0 ex_hist)))) = 1%nat.
+                 (outputs (snd (lrun repaired false sst0 ex_hist)))) = 1%nat.
 Proof. vm_compute. repeat split. Qed.
 Print Assumptions C09_nonvacuous.
+
+(* an l2gw session: ticks read the l2gw stats segment (entries 3 = access, 4 = handoff), the segment restarts
+   (900 -> 40), the handoff index is lost by a restart until the session is restored; the Stop reads the
+   interface table at index 3 (value 7), as handleSessionRelease does for every access type *)
+Definition ex_l2gw : list sev :=
+  [EActive 3 4; ETick (Snaps None (Some [(3, (500, 5)); (4, (900, 9))])) true;
+   ETick (Snaps None (Some [(3, (40, 1)); (4, (60, 2))])) true; ERestart; ERestored 3 4;
+   ETick (Snaps None (Some [(4, (100, 3))])) true; EReleased (rdg 3 1)].
+Example C09_nonvacuous_l2gw :
+  lrun_wraps repaired true sst0 ex_l2gw = false /\ no_prune ex_l2gw = true /\
+  map (fun c => (rxb c, txb c))
+      (flat_map (fun o => match o with Interim c _ => [c] | Stop c => [c] | Start => [] end)
+                (outputs (snd (lrun repaired true sst0 ex_l2gw)))) = [(500, 900); (540, 960); (540, 1060); (547, 1067)].
+Proof. vm_compute. repeat split. Qed.
+Print Assumptions C09_nonvacuous_l2gw.
 
 (* the two hypotheses are needed: with a u64 wrap, or a restore after the orphan prune, even the repaired
    component reports a decrease *)
 Example C09_wrap_hypothesis_needed :
-  exists evs, no_prune evs = true /\ lrun_wraps repaired sst0 evs = true /\
-              nondecreasing c4z (outputs (snd (lrun repaired sst0 evs))) = false.
+  exists evs, no_prune evs = true /\ lrun_wraps repaired false sst0 evs = true /\
+              nondecreasing c4z (outputs (snd (lrun repaired false sst0 evs))) = false.
 Proof.
-  exists [EActive 5; ETick (Some [(5, C4 (W - 1) 0 0 0)]) true; ETick (Some [(5, C4 7 0 0 0)]) true].
+  exists [EActive 5 0; ETick (Snaps (Some [(5, C4 (W - 1) 0 0 0)]) None) true; ETick (Snaps (Some [(5, C4 7 0 0 0)]) None) true].
   vm_compute. auto.
 Qed.
 Print Assumptions C09_wrap_hypothesis_needed.
 
 Example C09_prune_hypothesis_needed :
-  exists evs, lrun_wraps repaired sst0 evs = false /\ no_prune evs = false /\
-              nondecreasing c4z (outputs (snd (lrun repaired sst0 evs))) = false.
+  exists evs, lrun_wraps repaired false sst0 evs = false /\ no_prune evs = false /\
+              nondecreasing c4z (outputs (snd (lrun repaired false sst0 evs))) = false.
 Proof.
-  exists [EActive 5; ETick (rd 5 1000) true; ERestart; EPrune true; ERestored 5; ETick (rd 5 5) true].
+  exists [EActive 5 0; ETick (rd 5 1000) true; ERestart; EPrune true; ERestored 5 0; ETick (rd 5 5) true].
   vm_compute. auto.
 Qed.
 Print Assumptions C09_prune_hypothesis_needed.
@@ -136,26 +153,26 @@ Print Assumptions C09_prune_hypothesis_needed.
 (* ---------------- the code as found violates the property ---------------- *)
 (* readings 1000 then 5 are reported as 1000 then 5 *)
 Theorem C09_monotone_refuted :
-  exists evs, lrun_wraps defective sst0 evs = false /\ no_prune evs = true /\
-              nondecreasing c4z (outputs (snd (lrun defective sst0 evs))) = false.
-Proof. exists [EActive 5; ETick (rd 5 1000) true; ETick (rd 5 5) true]. vm_compute. auto. Qed.
+  exists evs, lrun_wraps defective false sst0 evs = false /\ no_prune evs = true /\
+              nondecreasing c4z (outputs (snd (lrun defective false sst0 evs))) = false.
+Proof. exists [EActive 5 0; ETick (rd 5 1000) true; ETick (rd 5 5) true]. vm_compute. auto. Qed.
 Print Assumptions C09_monotone_refuted.
 
 (* a repeated Released sends a second Stop; a Released with nothing open sends a Stop *)
 Theorem C09_stop_once_refuted :
-  exists evs, lrun_wraps defective sst0 evs = false /\
-              stops_ok false (snd (lrun defective sst0 evs)) = false.
-Proof. exists [EActive 5; EReleased None; EReleased None]. vm_compute. auto. Qed.
+  exists evs, lrun_wraps defective false sst0 evs = false /\
+              stops_ok false (snd (lrun defective false sst0 evs)) = false.
+Proof. exists [EActive 5 0; EReleased (Snaps None None); EReleased (Snaps None None)]. vm_compute. auto. Qed.
 Print Assumptions C09_stop_once_refuted.
 
 (* after a restart, Active before Restored sends a second Start *)
 Theorem C09_start_once_refuted :
-  exists evs, lrun_wraps defective sst0 evs = false /\ no_prune evs = true /\
-              bracketed false (outputs (snd (lrun defective sst0 evs))) = false.
-Proof. exists [EActive 5; ERestart; EActive 5]. vm_compute. auto. Qed.
+  exists evs, lrun_wraps defective false sst0 evs = false /\ no_prune evs = true /\
+              bracketed false (outputs (snd (lrun defective false sst0 evs))) = false.
+Proof. exists [EActive 5 0; ERestart; EActive 5 0]. vm_compute. auto. Qed.
 Print Assumptions C09_start_once_refuted.
 
 Theorem C09_bracket_refuted :
-  exists evs, lrun_wraps defective sst0 evs = false /\ accepted (snd (lrun defective sst0 evs)) = false.
-Proof. exists [EReleased None]. vm_compute. auto. Qed.
+  exists evs, lrun_wraps defective false sst0 evs = false /\ accepted (snd (lrun defective false sst0 evs)) = false.
+Proof. exists [EReleased (Snaps None None)]. vm_compute. auto. Qed.
 Print Assumptions C09_bracket_refuted.
